@@ -31,7 +31,20 @@ def oil_params(draw, min_pb=50.0):
         # parameters given as Python ints, as in the library's docstrings (Fluid(200, 35, 0.8, 650)): the dtype of a
         # parameter must not change the result
         T, api, gor = int(round(T)), int(round(api)), int(math.ceil(gor))
-    return {"T": T, "api": api, "sg": sg, "gor": gor}
+    # ... or as numpy float64 scalars, as they arrive when read from an array or a DataFrame row: unlike Python floats
+    # they are not "weak" in NumPy's promotion rules (a comparison with a float32 array is made in float64)
+    pform = draw(st.sampled_from(["py", "py", "np.float64"]))
+    return {"T": T, "api": api, "sg": sg, "gor": gor, "pform": pform}
+
+
+def oil_tuple(o):
+    """(T, api, sg, gor) of a generated oil in the form the case asks for (`pform`)."""
+    vals = (o["T"], o["api"], o["sg"], o["gor"])
+    if o.get("pform", "py") == "np.float64":
+        import numpy as np
+
+        return tuple(np.float64(v) for v in vals)
+    return vals
 
 
 @st.composite
